@@ -73,7 +73,7 @@ class Run:
                 # the driver died: the failing case is the first one without an output line
                 good = []
                 for l in lines:
-                    if l.startswith("=====") or "ERROR: " in l or "runtime error" in l or l.startswith("    #"):
+                    if l.startswith("=====") or "ERROR: " in l or "runtime error" in l or l.startswith("    #") or "DEADLYSIGNAL" in l or "Sanitizer" in l:
                         break
                     good.append(l)
                 good = good[:len(cases)]
